@@ -9,7 +9,6 @@ import (
 	"strings"
 
 	"golang.org/x/tools/go/ssa"
-	"golang.org/x/tools/go/types/typeutil"
 
 	"verif/sa/internal/core"
 	"verif/sa/internal/flow"
@@ -483,58 +482,48 @@ func checkProverReturns(p *core.Program, r *core.Report, ix *funcIndex, fn *ssa.
 			r.Violation("O7.3", cn, p.Pos(s.Pos), "%s", findingsText(p, s))
 		}
 	}
-	// return discipline
+	// return discipline, on SSA: a return whose error is certainly nil carries a proof all of whose origins are
+	// groth16.Prove's result (through wrappers and injected back ends); a return written as (x, y) with both operands
+	// certainly non-nil, or both nil, is malformed
 	fd := u.Node.(*ast.FuncDecl)
-	var proofVars []*types.Var
-	ast.Inspect(fd.Body, func(n ast.Node) bool {
-		if as, ok := n.(*ast.AssignStmt); ok && len(as.Rhs) == 1 {
-			if call, ok := ast.Unparen(as.Rhs[0]).(*ast.CallExpr); ok {
-				if f, _ := typeutil.Callee(info, call).(*types.Func); f != nil && f.FullName() == "github.com/consensys/gnark/backend/groth16.Prove" && len(as.Lhs) == 2 {
-					if v := identVar(info, as.Lhs[0]); v != nil {
-						proofVars = append(proofVars, v)
-					}
-				}
-			}
-		}
-		return true
-	})
 	var bad []string
 	nRet := 0
-	ast.Inspect(fd.Body, func(n ast.Node) bool {
-		if _, ok := n.(*ast.FuncLit); ok {
-			return false
-		}
-		ret, ok := n.(*ast.ReturnStmt)
+	isProve := func(c *ssa.Call) bool {
+		f := c.Common().StaticCallee()
+		return f != nil && f.String() == "github.com/consensys/gnark/backend/groth16.Prove"
+	}
+	for _, b := range fn.Blocks {
+		ret, ok := b.Instrs[len(b.Instrs)-1].(*ssa.Return)
 		if !ok || len(ret.Results) != 2 {
-			return true
+			continue
 		}
 		nRet++
-		errNil := isNilIdentExpr(info, ret.Results[1])
-		proofNil := isNilIdentExpr(info, ret.Results[0])
+		po := ssaOrigins(ret.Results[0], nil)
+		eo := ssaOrigins(ret.Results[1], nil)
+		_, pConst := ret.Results[0].(*ssa.Const)
+		_, eConst := ret.Results[1].(*ssa.Const)
+		direct := func(v ssa.Value) bool {
+			switch v.(type) {
+			case *ssa.Phi, *ssa.UnOp:
+				return false
+			}
+			return true
+		}
 		switch {
-		case !errNil && !proofNil:
-			bad = append(bad, "return at "+p.Pos(ret.Pos())+" carries both an error and a proof")
-		case errNil && proofNil:
+		case len(eo) == 0 && len(po) == 0 && pConst && eConst:
 			bad = append(bad, "return at "+p.Pos(ret.Pos())+" carries neither an error nor a proof")
-		case errNil:
-			// must wrap the groth16.Prove result
-			wraps := false
-			ast.Inspect(ret.Results[0], func(m ast.Node) bool {
-				if id, ok := m.(*ast.Ident); ok {
-					for _, v := range proofVars {
-						if info.Uses[id] == v {
-							wraps = true
-						}
-					}
+		case len(eo) > 0 && len(po) > 0 && direct(ret.Results[0]) && direct(ret.Results[1]):
+			bad = append(bad, "return at "+p.Pos(ret.Pos())+" carries both an error and a proof")
+		case len(eo) == 0:
+			for _, o := range po {
+				c, isCall := o.V.(*ssa.Call)
+				if !isCall || !isProve(c) || o.Index > 0 {
+					bad = append(bad, "the proof returned at "+p.Pos(ret.Pos())+" is not built from groth16.Prove's result ("+o.V.String()+")")
+					break
 				}
-				return true
-			})
-			if !wraps {
-				bad = append(bad, "the proof returned at "+p.Pos(ret.Pos())+" is not built from groth16.Prove's result")
 			}
 		}
-		return true
-	})
+	}
 	r.Check(len(bad) == 0 && nRet > 0, "O7.3", u.Name+": (proof, error) return discipline", p.Pos(fd.Pos()), fmt.Sprintf("%d returns: (nil, err) or (&Proof{groth16.Prove result}, nil)", nRet), strings.Join(bad, "; "))
 }
 
